@@ -28,8 +28,14 @@ def _prove_entry(args):
         return (fn, ename, pidx, None, {'queries': 0, 'time': 0, 'procs': 0}, traceback.format_exc())
 
 def _eps_switch(e, p):
+    # a path is a small-angle (Taylor) path only if some threshold test came out on the SMALL side; the generic side of a
+    # switch-over is the closed form and has to hold exactly
     eps = prove.eps_const_ids(e.nodes)
-    return any((a in eps or b in eps) for (a, c, b, t) in p.decisions)
+    for (a, c, b, t) in p.decisions:
+        if c in (0, 1) and b in eps and a not in eps and t: return True          # x < eps, x <= eps   taken
+        if c in (0, 1) and a in eps and b not in eps and not t: return True      # eps < x, eps <= x   not taken
+        if c not in (0, 1) and (a in eps or b in eps): return True
+    return False
 
 class Result:
     def __init__(self, pid, tier):
@@ -187,17 +193,22 @@ def finish_sym(res, specs, built, dagfiles, results, opts):
                     outcome_violation(res, s, e, p, r, dbin, known)
                 elif ('noraise' in p.notes or 'mustraise' in p.notes):
                     pass
-                cand = []
+                cand = []; cand_u = []
                 for name, st in r['claims'].items():
                     res.claims += 1; res.obligations += 1
                     if st == 'proved': res.discharged += 1
-                    elif st == 'undecided': res.undecided.append('%s path %d claim %s' % (e.name, p.idx, name))
+                    elif st == 'undecided':
+                        res.undecided.append('%s path %d claim %s' % (e.name, p.idx, name)); cand_u.append(name)
                     else: cand.append(name)
                 if len(res.samples) < 6 and r['claims']:
                     nm = next(iter(r['claims']))
                     res.samples.append({'entry': e.name, 'path': p.idx, 'decisions': len(p.decisions), 'claim': nm, 'status': r['claims'][nm], 'step_lemmas': r['lemmas'], 'cf_max_terms': r.get('maxsize')})
                 if cand:
                     handle_candidates(res, s, e, p, r, cand, dbin, known, approx, opts)
+                if cand_u and opts.get('search_undecided', True):
+                    # claims the solver left open: a counterexample found numerically still has to be confirmed by the solver at the
+                    # pinned point and reproduced on the real build; finding none changes nothing (the claim stays undecided)
+                    handle_candidates(res, s, e, p, r, cand_u[:6], dbin, known, approx, opts, quiet=True)
             # translator validation on the witness path
             cp = cvals.get(e.name)
             if cp is not None and e.paths:
@@ -283,7 +294,7 @@ def validate(res, e, cp):
     if bad:
         res.errors.append({'what': 'translator validation: DAG and double build disagree at the witness', 'entry': e.name, 'count': bad})
 
-def handle_candidates(res, s, e, p, r, cand, dbin, known, approx, opts):
+def handle_candidates(res, s, e, p, r, cand, dbin, known, approx, opts, quiet=False):
     tol = opts.get('approx_tol', 1e-9) if approx else 1e-18
     extra = []
     for nm, m in (r.get('cex_models') or {}).items():
@@ -292,6 +303,7 @@ def handle_candidates(res, s, e, p, r, cand, dbin, known, approx, opts):
     for name in cand:
         key = '%s:p%d:%s' % (e.name, p.idx, name)
         if name not in found:
+            if quiet: continue
             if approx:
                 res.approx_paths += 1
                 res.notes.append('%s: small-angle path, difference below %g at %d points of the region (TRUNC decides these)' % (key, tol, npc))
@@ -301,15 +313,22 @@ def handle_candidates(res, s, e, p, r, cand, dbin, known, approx, opts):
             continue
         asg, lv, rv = found[name]
         sc = prove.solver_confirm(e, p, name, asg)
+        if sc == 'unsat' and extra:
+            # the point derived from the solver's (truncated) model is not a counterexample: try the exact sample points alone
+            f2, _ = prove.numeric_search(e, p, [name], nsamples=opts.get('nsamples', 60), seed=opts.get('seed', 0), tol=tol, extra=(), scale_inputs=approx)
+            if name in f2:
+                asg, lv, rv = f2[name]
+                sc = prove.solver_confirm(e, p, name, asg)
         if sc == 'unsat':
-            res.undecided.append('%s: numeric candidate refuted by the solver at the pinned point' % key); continue
+            if not quiet: res.undecided.append('%s: numeric candidate refuted by the solver at the pinned point' % key)
+            continue
         # replay on the real double build
         rep = replay(res, s, e, name, asg, dbin, lv, rv)
         rec = {'property': res.pid, 'key': key, 'entry': e.name, 'path': p.idx, 'claim': name,
                'inputs': {e.nodes[k].name: float(v) for k, v in asg.items()}, 'solver_at_pinned_point': sc, 'model_lhs': lv, 'model_rhs': rv, 'replay': rep,
                'path_decisions': [(e.nodes[a].op, c, e.nodes[b].op, t) for (a, c, b, t) in p.decisions]}
         if rep is None or not rep.get('reproduced'):
-            res.undecided.append('%s: counterexample candidate did not reproduce on the double build' % key)
+            if not quiet: res.undecided.append('%s: counterexample candidate did not reproduce on the double build' % key)
             continue
         kf = match_known(known, key)
         if kf:
